@@ -17,7 +17,9 @@
 (*    ev = "open"  password try on a document with passwords user / owner (segments as in            *)
 (*                 MC_SecurityAlgorithms): authU / authO (authenticate_*_password), res of decrypt    *)
 (*                 (ok | err | panic | auto = the loader decrypted with the empty password),          *)
-(*                 fk = lopdf's file key eq | ne | na, bad = kinds of items whose plaintext differs    *)
+(*                 fk = lopdf's file key eq | ne | na, bad = kinds of items whose plaintext differs;   *)
+(*                 dlen = the Length entry of the Encrypt dictionary (-1 none), canonOpens = the same  *)
+(*                 attempt succeeds when Length has its canonical form CanonLength                     *)
 (*    ev = "env"   lopdf's writer / loader did not transport the document (not judged)               *)
 EXTENDS SecurityAlgorithms, Json, IOUtils, TLC
 
@@ -58,10 +60,7 @@ JudgeDict(r) ==
        ELSE IF d.Filter # "Standard" THEN bad("Filter")
        ELSE IF d.V # c.V THEN bad("V")
        ELSE IF d.R # c.R THEN bad("R")
-       ELSE IF ~(CASE c.V = 1 -> d.Length \in {-1, 40}
-                   [] c.V = 2 -> d.Length = c.bits
-                   [] c.V = 4 -> d.Length \in {-1, 128}
-                   [] OTHER  -> d.Length \in {-1, 256}) THEN bad("Length")
+       ELSE IF d.Length \notin LegalLengths(c) THEN bad("Length")
        ELSE IF c.V >= 4 /\ (d.stmf # c.stmf \/ d.strf # c.strf) THEN bad("CFM")
        ELSE IF c.V >= 4 /\ ~c.meta /\ d.EncryptMetadata # "false" THEN bad("EncryptMetadata")
        ELSE IF c.V >= 4 /\ c.meta /\ d.EncryptMetadata = "false" THEN bad("EncryptMetadata")
@@ -114,13 +113,13 @@ JudgeOpen(r) ==
         cfgs == RS(r) \o "." \o r.cfg.stmf \o "." \o r.cfg.strf
         bads == {r.bad[i] : i \in 1..Len(r.bad)}
         opened == r.res \in {"ok", "auto"}
-        consistent == /\ ValidCfg(r.cfg) /\ bads \subseteq ItemKinds
+        consistent == /\ ValidCfg(r.cfg) /\ bads \subseteq ItemKinds /\ r.dlen \in LegalLengths(r.cfg)
                       /\ ("expUser" \in DOMAIN r) => (r.expUser = expU /\ r.expOwner = expO)
         v == IF ~consistent THEN "spec-inconsistent"
-             \* informational probes (Length entries the standard does not define for this V): never a violation
-             ELSE IF r.variant # "" THEN (IF ~exp THEN "ok-probe-na." \o r.variant
-                                          ELSE IF opened /\ bads \subseteq {"str.streamdict"}
-                                          THEN "ok-probe-pass." \o r.variant ELSE "ok-probe-fail." \o r.variant)
+             \* a Length entry in another legal form than the canonical one, the same attempt succeeds with the canonical form
+             ELSE IF exp /\ LenClass(r.cfg, r.dlen) # "none" /\ r.canonOpens = "yes" /\ "panic" \notin {r.authU, r.authO, r.res}
+                     /\ ((expU /\ r.authU = "no") \/ (expO /\ r.authO = "no") \/ ~opened \/ bads # {})
+             THEN "length." \o LenClass(r.cfg, r.dlen)                       \* Table 20: the entry does not apply / has its default
              ELSE IF "panic" \in {r.authU, r.authO, r.res} THEN "panic." \o cfgs
              ELSE IF R >= 5 /\ SplitAtCut(r.try) /\ exp
                      /\ ((expU /\ r.authU = "no") \/ (expO /\ r.authO = "no") \/ (r.authU = "na" /\ ~opened))
